@@ -41,11 +41,16 @@ FIXED_FNS = [
 
 
 def fn_table():
+    """every Go declaration is linked to its OWN Python name (rep0 … rep6, repv are aliases of vhelp.rep): a Python
+    function bound under two Go signatures is the separate probe at the end (Dup1 must stay before Dup2)"""
     t = []
     for n in range(7):
-        t.append(("bh", "Rep%d" % n, "vhelp", "rep", n))
-    t.append(("bh", "RepV", "vhelp", "rep", "v"))
-    return t + FIXED_FNS
+        t.append(("bh", "Rep%d" % n, "vhelp", "rep%d" % n, n))
+    t.append(("bh", "RepV", "vhelp", "repv", "v"))
+    return t + FIXED_FNS + [("bh", "Dup1", "vhelp", "dup", 1), ("bh", "Dup2", "vhelp", "dup", 2)]
+
+
+N_PLAIN_FNS = 8 + len(FIXED_FNS)
 
 
 # ------------------------------------------------------------------ shapes
@@ -173,22 +178,19 @@ def user_src(mod, shape, go, info, is_main):
     imps = ['"github.com/goplus/lib/c"', '"github.com/goplus/lib/py"', '"%s/bh"' % mod, '"%s/vdump"' % mod]
     for b in info["bind"]:
         imps.append('"%s/%s"' % (mod, binds[b]["go"]))
-    for u in info["users"]:
-        imps.append('"%s/%s"' % (mod, shape["users"][u]["go"]))
+    if not is_main:
+        for u in info["users"]:
+            imps.append('"%s/%s"' % (mod, shape["users"][u]["go"]))
     L = []
     sfx = "M" if is_main else ""
-    for k, b in enumerate(info["init_calls"]):
-        L.append("var initTag%d = %s.Tag%s()" % (k, binds[b]["go"], "2" if binds[b]["go"].endswith("x") else ""))
-    for k, m in enumerate(info["explicit"]):
-        L.append('var initMod%d = py.ImportModule(c.Str("%s"))' % (k, shape["mods"][m]))
-    L.append("")
     L.append("func init() {")
     L.append('\tprintln("INIT %s")' % go)
     for k, b in enumerate(info["init_calls"]):
         L.append('\tprint("INITUSE %s %s ")' % (go, shape["mods"][binds[b]["mod"]]))
-        L.append("\tvdump.Dump(initTag%d)" % k)
+        L.append("\tvdump.Dump(%s.Tag%s())" % (binds[b]["go"], "2" if binds[b]["go"].endswith("x") else ""))
         L.append("\tprintln()")
     for k, m in enumerate(info["explicit"]):
+        L.append('\tinitMod%d := py.ImportModule(c.Str("%s"))' % (k, shape["mods"][m]))
         L.append('\tprint("INITMOD %s %s ")' % (go, shape["mods"][m]))
         L.append('\tvdump.Dump(bh.Samemod(py.Str("%s"), initMod%d))' % (shape["mods"][m], k))
         L.append("\tprintln()")
@@ -313,36 +315,23 @@ func build() *py.Object {
 	case 'b':
 		b := vio.Bytes()
 		return bytesFrom(cptr(b), len(b))
-	case 'I':
+	case 'I': // int64 / int through the compiler's PyVal (narrow kinds live in the probe program)
 		w := vio.Uint()
 		v := vio.Uint()
-		switch w {
-		case 8:
-			return first(py.List(int8(v)))
-		case 16:
-			return first(py.Tuple(int16(v)).TupleSlice(0, 1).ListAsTupleCompat())
-		case 32:
-			return first(py.List(int32(v)))
-		case 64:
+		if w == 64 {
 			return first(py.List(int64(v)))
 		}
-		return first(py.List(int(v)))
+		return py.Tuple(int(v)).TupleItem(0)
 	case 'U':
 		w := vio.Uint()
 		v := vio.Uint()
 		switch w {
-		case 8:
-			return first(py.List(uint8(v)))
-		case 16:
-			return first(py.List(uint16(v)))
-		case 32:
-			return first(py.List(uint32(v)))
 		case 64:
 			return first(py.List(uint64(v)))
 		case 1:
 			return first(py.List(uintptr(v)))
 		}
-		return first(py.List(uint(v)))
+		return py.Tuple(uint(v)).TupleItem(0)
 	case 'd':
 		return first(py.List(fb(vio.Uint())))
 	case 'g':
@@ -475,17 +464,38 @@ func main() {
 '''
 
 
-def tree_tokens(t):
+def tree_tokens(t, model=False):
+    """token text of a value tree; model=True: the form `modeld_c19 val` reads (Go's int/uint/uintptr are 64 bits wide)"""
     k = t[0]
     if k in "iuf" or k in "dg":
         return "%s %d" % (k, t[1])
     if k in "IU":
-        return "%s %d %d" % (k, t[1], t[2])
+        return "%s %d %d" % (k, (t[1] if t[1] in (8, 16, 32) else 64) if model else t[1], t[2])
     if k in "sbSaBZ":
         return "%s %s" % (k, t[1].hex() or "-")
     if k in "TF":
         return k
-    return "%s %d %s" % (k, len(t[1]), " ".join(tree_tokens(c) for c in t[1])) if t[1] else "%s 0" % k
+    return "%s %d %s" % (k, len(t[1]), " ".join(tree_tokens(c, model) for c in t[1])) if t[1] else "%s 0" % k
+
+
+def valid_utf8(b):
+    try:
+        b.decode("utf-8")
+        return True
+    except UnicodeDecodeError:
+        return False
+
+
+def model_line(t):
+    """`val …` request for the Lean model, or None where the model has nothing to say (float32 widening is LLVM's
+    fpext, the validity of UTF-8 is CPython's decoder)"""
+    def bad(x):
+        if x[0] == "g":
+            return True
+        if x[0] in "sSZ" and not valid_utf8(x[1]):
+            return True
+        return x[0] in "ltLP" and any(bad(c) for c in x[1])
+    return None if bad(t) else "val " + tree_tokens(t, model=True)
 
 
 GO_INT = {8: "int8", 16: "int16", 32: "int32", 64: "int64", 0: "int"}
@@ -599,8 +609,7 @@ def write_program(d, shape, mod, baked, gosrc, repo_gosum):
         files["%s/%s.go" % (b["go"], b["go"])] = binding_src(b["go"], name, decls)
     for u in shape["users"]:
         files["%s/%s.go" % (u["go"], u["go"])] = user_src(mod, shape, u["go"], u, False)
-    files["main.go"] = MAIN_STATIC.replace("@MOD@", mod).replace(
-        "first(py.Tuple(int16(v)).TupleSlice(0, 1).ListAsTupleCompat())", "py.Tuple(int16(v)).TupleItem(0)")
+    files["main.go"] = MAIN_STATIC.replace("@MOD@", mod)
     files["use_main.go"] = user_src(mod, shape, "main", shape["main"], True)
     files["tables.go"] = tables_src(mod, shape, baked)
     for rel, content in files.items():
@@ -654,7 +663,7 @@ def rand_float_bits(rng):
     return rng.getrandbits(64)
 
 
-def rand_scalar(rng, baked=False, nest_ok=True):
+def rand_scalar(rng, baked=False, narrow=False):
     """a scalar value tree; valid UTF-8 only (a NULL item inside a container is the caller's problem, not llgo's)"""
     k = rng.choice("iiuufIIUUdgsSbaBTFf" + ("Z" if baked else ""))
     if k == "i":
@@ -666,7 +675,7 @@ def rand_scalar(rng, baked=False, nest_ok=True):
     if k == "g":
         return ("g", rng.choice(F32_BITS + [rng.getrandbits(32)]))
     if k in "IU":
-        w = rng.choice([8, 16, 32, 64, 0] + ([1] if k == "U" else []))
+        w = rng.choice(([8, 16, 32] if narrow else []) + [64, 0] + ([1] if k == "U" else []))
         ww = w if w in (8, 16, 32) else 64
         pat = rng.choice([0, 1, (1 << ww) - 1, 1 << (ww - 1), (1 << (ww - 1)) - 1, (1 << (ww - 1)) + 1, (1 << ww) - 2, rng.getrandbits(ww)])
         return (k, w, pat)
@@ -683,23 +692,41 @@ def rand_scalar(rng, baked=False, nest_ok=True):
     return (k,)
 
 
-def rand_tree(rng, depth, baked=False):
+def rand_tree(rng, depth, baked=False, narrow=False):
     if depth <= 0 or rng.random() < 0.45:
-        return rand_scalar(rng, baked)
+        return rand_scalar(rng, baked, narrow)
     k = rng.choice("ltLP")
     n = rng.choice([0, 1, 2, 3, 4, 6]) if k in "LP" else rng.choice([0, 1, 2, 3, 5, 9])
-    return (k, [rand_tree(rng, depth - 1, baked) for _ in range(n)])
+    return (k, [rand_tree(rng, depth - 1, baked, narrow) for _ in range(n)])
 
 
 def make_baked(rng, n):
-    baked = [("Z", b"hello"), ("Z", b"\xe4\xb8\x96\xe7\x95\x8c\xf0\x9f\x98\x80"), ("Z", b""),
-             ("L", [("I", 8, 255), ("U", 8, 255), ("I", 16, 0x8000), ("U", 32, 0xffffffff), ("S", b"s\x00t"), ("d", 0x3ff8000000000000),
-                    ("g", 0x3dcccccd), ("T",), ("a", b"ab\x00\xff"), ("B", b"\x01\x00\xff")]),
+    """compile-time cases of the batch program; baked[0] is the NUL literal (known finding / fix C19-3)"""
+    baked = [("Z", b"a\x00b"), ("Z", b"hello"), ("Z", b"\xe4\xb8\x96\xe7\x95\x8c\xf0\x9f\x98\x80"), ("Z", b""),
+             ("L", [("S", b"s\x00t"), ("d", 0x3ff8000000000000), ("g", 0x3dcccccd), ("T",), ("a", b"ab\x00\xff"), ("B", b"\x01\x00\xff")]),
              ("P", [("I", 64, 1 << 63), ("U", 64, (1 << 64) - 1), ("I", 0, (1 << 64) - 1), ("U", 1, 12345)]),
-             ("P", []), ("L", []), ("P", [("L", [("P", [("L", [("I", 8, 128)])])])])]
+             ("P", []), ("L", []), ("P", [("L", [("P", [("L", [("I", 64, 128)])])])])]
     while len(baked) < n:
         baked.append(rand_tree(rng, 3, baked=True))
     return baked
+
+
+def make_narrow(rng, n):
+    """values of the narrow integer kinds (probe program): (dynamic cases, baked cases)"""
+    dyn = []
+    for k in "IU":
+        for w in (8, 16, 32):
+            for pat in (0, 1, (1 << w) - 1, 1 << (w - 1), (1 << (w - 1)) - 1, (1 << w) - 2, (1 << w) + 5, (1 << 63) + 3, (1 << 64) - 1):
+                dyn.append((k, w, pat))
+    while len(dyn) < n:
+        w = rng.choice([8, 16, 32])
+        dyn.append((rng.choice("IU"), w, rng.getrandbits(rng.choice([w, w + 1, 64]))))
+    baked = [("L", [("I", 8, 255), ("U", 8, 255), ("I", 16, 0x8000), ("U", 32, 0xffffffff), ("I", 32, 0x80000000), ("U", 16, 0xffff)]),
+             ("P", [("I", 8, 0x80), ("L", [("U", 8, 1), ("I", 16, 0xffff)]), ("I", 32, 1)])]
+    for _ in range(6):
+        baked.append((rng.choice("LP"), [(rng.choice("IU"), w, rng.getrandbits(w)) for w in
+                                         (rng.choice([8, 16, 32]) for _ in range(rng.randint(1, 6)))]))
+    return dyn, baked
 
 
 def num_arg(rng):
@@ -757,9 +784,8 @@ def make_cases(rng, shape, baked, n_values, n_calls):
     roots += [("s", b) for b in STR_SAMPLES] + [("S", b) for b in STR_SAMPLES[:10]] + [("s", b) for b in BAD_UTF8] + [("S", b) for b in BAD_UTF8[:4]]
     roots += [("b", b) for b in STR_SAMPLES[:6] + BAD_UTF8] + [("a", b) for b in BAD_UTF8[:5] + [b""]] + [("B", b"\x00\xff\x80"), ("B", b""), ("B", b"\x00" * 8)]
     roots += [("u", v) for v in (0, 1, 1 << 63, (1 << 64) - 1)] + [("T",), ("F",)]
-    for w in (8, 16, 32, 64, 0):
-        ww = w if w in (8, 16, 32) else 64
-        for pat in (0, 1, (1 << ww) - 1, 1 << (ww - 1), (1 << (ww - 1)) - 1):
+    for w in (64, 0):
+        for pat in (0, 1, (1 << 64) - 1, 1 << 63, (1 << 63) - 1):
             roots += [("I", w, pat), ("U", w, pat)]
     roots += [("U", 1, (1 << 64) - 1)]
     while len(roots) < n_values:
@@ -767,20 +793,27 @@ def make_cases(rng, shape, baked, n_values, n_calls):
         roots.append(rand_tree(rng, 3) if r < 0.6 else ("s", rng.choice(BAD_UTF8)) if r < 0.65 else rand_scalar(rng))
     for t in roots:
         tok = tree_tokens(t)
-        cases.append({"kind": "value", "op": "R " + tok, "oracle": {"k": "value", "tok": tok}, "model": "val " + tok, "tree": t})
+        cases.append({"kind": "value", "op": "R " + tok, "oracle": {"k": "value", "tok": tok}, "model": model_line(t), "tree": t})
     # (ii) calls
     for _ in range(n_calls):
-        fi = rng.randrange(len(fns)) if rng.random() < 0.6 else rng.randrange(8)
+        fi = rng.randrange(N_PLAIN_FNS) if rng.random() < 0.6 else rng.randrange(8)
         gp, gn, pm, pa, ar = fns[fi]
         args = fn_args(rng, pm, pa, ar)
         toks = [tree_tokens(a) for a in args]
         cases.append({"kind": "call", "op": "C %d %d %s" % (fi, len(args), " ".join(toks)),
                       "oracle": {"k": "call", "mod": pm, "attr": pa, "args": toks},
                       "model": "call %d %d %d" % (1 if ar == "v" else ar, 1 if ar == "v" else 0, len(args)), "fn": "%s.%s" % (pm, pa), "arity": len(args)})
+    # one Python function bound under two Go signatures (math.Log / math.LogOf idiom of goplus/lib): narrow one first
+    for fi, args in ((N_PLAIN_FNS, [("i", 8)]), (N_PLAIN_FNS + 1, [("i", 8), ("i", 2)]), (N_PLAIN_FNS, [("s", b"x")]),
+                     (N_PLAIN_FNS + 1, [("f", 0x4020000000000000), ("l", [("i", 1)])])):
+        toks = [tree_tokens(a) for a in args]
+        cases.append({"kind": "dupsig", "op": "C %d %d %s" % (fi, len(args), " ".join(toks)),
+                      "oracle": {"k": "call", "mod": "vhelp", "attr": "dup", "args": toks},
+                      "model": "call %d 0 %d" % (len(args), len(args)), "fn": "vhelp.dup", "arity": len(args)})
     # baked (compiler-lowered literals)
     for k, t in enumerate(baked):
         tok = tree_tokens(t)
-        cases.append({"kind": "baked", "op": "K %d" % k, "oracle": {"k": "value1", "tok": tok}, "model": "val " + tok, "tree": t})
+        cases.append({"kind": "strnul" if k == 0 else "baked", "op": "K %d" % k, "oracle": {"k": "value1", "tok": tok}, "model": model_line(t), "tree": t})
     # (iii) + (iv): lookups and uses from every ordinary package
     pk = package_table(shape)
     for pid, (go, kind, info) in enumerate(pk):
@@ -803,3 +836,145 @@ def make_cases(rng, shape, baked, n_values, n_calls):
             cases.append({"kind": "lookup" if uk == "var" else "use", "op": "U %d %d" % (pid, k), "oracle": o, "model": None,
                           "use": (pid, "v" if uk == "var" else "c", bi["mod"], ai)})
     return cases
+
+
+# ------------------------------------------------------------------ probe programs (replays of the recorded findings)
+PROBE_MAIN = r'''// Code generated by /verif/harness/c19/gen.py. DO NOT EDIT.
+// Probe program: narrow integer kinds through PyVal, a Go helper inside a binding package, a typed variadic.
+package main
+
+import (
+	"github.com/goplus/lib/py"
+
+	"@MOD@/bh"
+	"@MOD@/bprobe"
+	"@MOD@/vdump"
+	"@MOD@/vio"
+)
+
+func first(l *py.Object) *py.Object { return l.ListItem(0) }
+
+// aaNarrowTwice: int8(v) twice in one compilation; Go says both are the same value.
+func aaNarrowTwice(v uint64) *py.Object { return py.Tuple(int8(v), int8(v)) }
+
+func narrow(signed bool, w uint64, v uint64) *py.Object {
+	if signed {
+		switch w {
+		case 8:
+			return first(py.List(int8(v)))
+		case 16:
+			return py.Tuple(int16(v)).TupleItem(0)
+		}
+		return first(py.List(int32(v)))
+	}
+	switch w {
+	case 8:
+		return first(py.List(uint8(v)))
+	case 16:
+		return py.Tuple(uint16(v)).TupleItem(0)
+	}
+	return first(py.List(uint32(v)))
+}
+
+func printStr(o *py.Object) {
+	if o == nil {
+		vdump.Dump(nil)
+		return
+	}
+	vdump.Raw(o)
+}
+
+func main() {
+	print("READY ")
+	printStr(bh.Version())
+	println()
+	seq := 0
+	for {
+		op := vio.Tok()
+		if op == 0 {
+			break
+		}
+		print("#", seq, " ")
+		seq++
+		switch op {
+		case 'D':
+			vdump.Dump(aaNarrowTwice(vio.Uint()))
+		case 'N':
+			k := vio.Tok()
+			w := vio.Uint()
+			x := narrow(k == 'I', w, vio.Uint())
+			vdump.Dump(bh.Ident(x))
+			print(" ")
+			printStr(bh.Pydump(x))
+		case 'K':
+			vdump.Dump(bakedCase(int(vio.Uint())))
+		case 'H':
+			vdump.Dump(bprobe.Helper(py.Long(5)))
+		case 'V':
+			vdump.Dump(bprobe.RepT(py.Long(1), py.Long(2)))
+		default:
+			print("bad-op")
+		}
+		println()
+	}
+	println("DONE")
+}
+'''
+
+BPROBE_SRC = '''// Code generated by /verif/harness/c19/gen.py. DO NOT EDIT.
+package bprobe
+
+import (
+	_ "unsafe"
+
+	"github.com/goplus/lib/py"
+)
+
+const LLGoPackage = "py.vhelp"
+
+//go:linkname helperRep py.helper_rep
+func helperRep(a *py.Object) *py.Object
+
+// Helper is Go code inside a binding package that calls a Python function of the bound module.
+func Helper(x *py.Object) *py.Object { return helperRep(x) }
+
+// RepT is declared like github.com/goplus/lib/py/math.Hypot: a typed variadic instead of `__llgo_va_list ...any`.
+//
+//go:linkname RepT py.rept
+func RepT(args ...*py.Object) *py.Object
+'''
+
+
+def write_probe_program(d, mod, narrow_baked, gosrc, repo_gosum):
+    files = {"go.mod": "module %s\n\ngo 1.24\n\nrequire github.com/goplus/lib v0.3.1\n" % mod, "go.sum": open(repo_gosum).read(),
+             "vio/vio.go": open(os.path.join(gosrc, "vio.go.txt")).read(),
+             "vdump/vdump.go": open(os.path.join(gosrc, "vdump.go.txt")).read().replace("@MOD@", mod),
+             "bh/bh.go": binding_src("bh", "vhelp", [fn_decl("Ident", "ident", 1), fn_decl("Pydump", "pydump", 1), fn_decl("Version", "version", 0)]),
+             "bprobe/bprobe.go": BPROBE_SRC, "main.go": PROBE_MAIN.replace("@MOD@", mod)}
+    L = ["// Code generated by /verif/harness/c19/gen.py. DO NOT EDIT.", "package main", "", 'import "github.com/goplus/lib/py"', "",
+         "func bakedCase(k int) *py.Object {", "\tswitch k {"]
+    for k, t in enumerate(narrow_baked):
+        L.append("\tcase %d:\n\t\treturn %s" % (k, tree_go(t, False)))
+    L += ["\t}", "\treturn nil", "}", ""]
+    files["tables.go"] = "\n".join(L)
+    for rel, content in files.items():
+        p = os.path.join(d, rel)
+        os.makedirs(os.path.dirname(p), exist_ok=True)
+        with open(p, "w") as f:
+            f.write(content)
+    return files
+
+
+def write_noinit_program(d, mod, repo_gosum):
+    """a program whose only contact with Python is the blank import of a binding package"""
+    files = {"go.mod": "module %s\n\ngo 1.24\n\nrequire github.com/goplus/lib v0.3.1\n" % mod, "go.sum": open(repo_gosum).read(),
+             "bsolo/bsolo.go": binding_src("bsolo", "vsolo", [fn_decl("Tag", "tag", 0)]),
+             "main.go": '// Code generated by /verif/harness/c19/gen.py. DO NOT EDIT.\npackage main\n\nimport _ "%s/bsolo"\n\nfunc main() {\n\tprintln("START")\n}\n' % mod}
+    for rel, content in files.items():
+        p = os.path.join(d, rel)
+        os.makedirs(os.path.dirname(p), exist_ok=True)
+        with open(p, "w") as f:
+            f.write(content)
+    with open(os.path.join(d, "vsolo.py"), "w") as f:
+        f.write("import sys\nsys.stderr.write('IMPORT vsolo\\n')\nsys.stderr.flush()\n\ndef tag():\n    return 'vsolo'\n")
+    return files
